@@ -25,6 +25,9 @@ pub struct Params {
     /// 0 prompt transmit timestamps, 1 reported after the Delay_Resp arrived, 2 mixed
     tx_mode: u8,
     seed: u64,
+    /// the grandmaster starts announcing (and sending Sync) this late: 0, or late enough that the port has
+    /// become master through its announce receipt timeout first (LISTENING -> MASTER -> SLAVE)
+    master_start_ns: u64,
 }
 
 fn gen_params(t: &mut Tape) -> Params {
@@ -56,6 +59,7 @@ fn gen_params(t: &mut Tape) -> Params {
         fup_first: t.chance(1, 6),
         tx_mode: t.weighted(&[3, 1, 1]) as u8,
         seed: t.below(1 << 30),
+        master_start_ns: if t.chance(1, 3) { t.urange(5_000_000_000, 20_000_000_000) } else { 0 },
     }
 }
 
@@ -118,8 +122,8 @@ pub fn simulate(p: &Params, bound_ns: f64, t_settle_ns: u64, horizon_ns: u64) ->
     };
     let sync_i = ilog_ns(p.sync_log);
     let ann_i = ilog_ns(0);
-    push(&mut heap, 1_000, Kind::MasterAnnounce);
-    push(&mut heap, 50_000, Kind::MasterSync);
+    push(&mut heap, 1_000 + p.master_start_ns, Kind::MasterAnnounce);
+    push(&mut heap, 50_000 + p.master_start_ns, Kind::MasterSync);
     push(&mut heap, node.bmca_interval_ns() / 3, Kind::Bmca);
     let mut ann = simple_announce(MASTER.clock, 1, 6, 0);
     ann.gm_identity = MASTER.clock;
@@ -306,7 +310,7 @@ pub fn t_settle_ns(sync_log: i8, delay_log: i8) -> u64 {
 pub fn case(t: &mut Tape) -> CaseOut {
     let mut out = CaseOut::new();
     let p = gen_params(t);
-    let ts = t_settle_ns(p.sync_log, p.delay_log);
+    let ts = t_settle_ns(p.sync_log, p.delay_log) + p.master_start_ns;
     let horizon = ts + 120_000_000_000 + std::env::var("VERIF_C02_EXTRA_S").ok().and_then(|x| x.parse::<u64>().ok()).unwrap_or(0) * 1_000_000_000;
     let b = bound_ns(p.jitter_ns);
     let o = simulate(&p, b, ts, horizon);
@@ -333,8 +337,11 @@ pub fn case(t: &mut Tape) -> CaseOut {
         out.fail("clock stepped after the settle time", format!("last step at {} s (limit {} s), {} steps ; {:?}", o.last_step_s, ts as f64 / 1e9, o.steps_total, p));
     }
     out.label(format!("residual/bound<={}", ((o.worst_after_ns / b * 4.0).ceil() / 4.0)));
+    if p.master_start_ns > 0 {
+        out.label("late-master(port was MASTER first)");
+    }
     if p.offset_ns.abs() > 1_000_000 || p.osc_ppm.abs() > 10.0 || p.jitter_ns > 1_000 {
-        out.nontrivial = Some(hash_of(&(p.offset_ns / 1000, (p.osc_ppm * 10.0) as i64, p.delay_ns / 1000, p.jitter_ns / 100, p.sync_log, p.delay_log, p.one_step, p.tx_mode)));
+        out.nontrivial = Some(hash_of(&(p.offset_ns / 1000, (p.osc_ppm * 10.0) as i64, p.delay_ns / 1000, p.jitter_ns / 100, p.sync_log, p.delay_log, p.one_step, p.tx_mode, p.master_start_ns > 0)));
     }
     out
 }
@@ -346,7 +353,7 @@ pub fn run(ctx: &Ctx) -> i32 {
         Finish {
             ctx,
             level: "exploration",
-            rule: "closed loop: a synthetic grandmaster (ideal clock = true time; one-step or two-step, Follow_Up optionally before its Sync) and a real slave port with the real KalmanFilter (default configuration) steering a simulated clock; initial offset in [-10 s, 10 s] (log-uniform magnitude, both signs, exact 0), oscillator error within +-150 ppm, symmetric one-way delay 1..400 us, uniform per-message jitter up to J in [0, 20 us], sync and delay-request log intervals -3..1, transmit timestamps reported promptly / only after the Delay_Resp / mixed; all of the slave's timestamps are readings of the steered clock. Oracle: |true offset| <= 0.5 us + 3 J from some time <= 120 s + 1000 x max(sync interval, delay-request interval) until the horizon (+120 s), no clock step after that time, every frequency command finite and within +-400 ppm. Non-trivial = |offset| > 1 ms or |oscillator error| > 10 ppm or J > 1 us; distinct by quantised parameter tuple.",
+            rule: "closed loop: a synthetic grandmaster (ideal clock = true time; one-step or two-step, Follow_Up optionally before its Sync) and a real slave port with the real KalmanFilter (default configuration) steering a simulated clock; initial offset in [-10 s, 10 s] (log-uniform magnitude, both signs, exact 0), oscillator error within +-150 ppm, symmetric one-way delay 1..400 us, uniform per-message jitter up to J in [0, 20 us], sync and delay-request log intervals -3..1, transmit timestamps reported promptly / only after the Delay_Resp / mixed; in a third of the cases the grandmaster only starts 5-20 s after the port, which has then become master through its announce receipt timeout (LISTENING -> MASTER -> SLAVE; all limits count from the grandmaster's start); all of the slave's timestamps are readings of the steered clock. Oracle: |true offset| <= 0.5 us + 3 J from some time <= 120 s + 1000 x max(sync interval, delay-request interval) until the horizon (+120 s), no clock step after that time, every frequency command finite and within +-400 ppm. Non-trivial = |offset| > 1 ms or |oscillator error| > 10 ppm or J > 1 us; distinct by quantised parameter tuple.",
             assumptions: vec!["tolerances (0.5 us + 3 J, 120 s + 1000 x the slower message interval) were calibrated once on the unchanged tree with head-room and are a stated tolerance, not tuned per run".into(), "no wall clock anywhere: a run is a pure function of its parameters".into()],
             min_nontrivial: 50,
         },
